@@ -622,6 +622,9 @@ func runFatCase(prop string, c core.Case, env *core.Env) core.Result {
 	fr := &fatRun{prop: prop, c: c, fc: fc, res: &res, st: st}
 	var fs filesystem.FileSystem
 	var err error
+	if prop == "C03" {
+		st.SetAllowed(monstore.Range{Off: v.Start, End: v.Start + v.Size})
+	}
 	if pi := core.Guard(func() { fs, err = fatCreate(st, v) }); pi != nil {
 		res.Fail(fmt.Sprintf("%s/%s/create-panic/%s:%s", prop, v.Type, pi.Top, pi.Class), "Create panicked: "+pi.Msg, fc)
 		return res
@@ -634,7 +637,7 @@ func runFatCase(prop string, c core.Case, env *core.Env) core.Result {
 	res.Count("create.accepted."+v.Type, 1)
 	cs := fatClusterSize(fs)
 	drv := &fsdrive.Driver{
-		Cfg:   fsdrive.Cfg{Prefix: prop + "/" + v.Type, FoldCase: true, NoCompare: prop == "C08"},
+		Cfg:   fsdrive.Cfg{Prefix: prop + "/" + v.Type, FoldCase: true, NoCompare: prop == "C08" || prop == "C03"},
 		FS:    fs,
 		Model: reftree.New(true),
 		Res:   &res,
@@ -665,6 +668,17 @@ func runFatCase(prop string, c core.Case, env *core.Env) core.Result {
 		return drv.Compare(fs2, "reopened", nil)
 	}
 
+	if prop == "C03" {
+		if !c03Report(&res, st, v.Type, v.Start, v.Size, "Create", fr.failKey) {
+			return res
+		}
+		drv.AfterOp = func(op fsdrive.Op, e error) {
+			if !c03Report(&res, st, v.Type, v.Start, v.Size, op.Kind, fr.failKey) {
+				drv.Diverged = true
+			}
+		}
+		defer c03Final(&res, st, v.Type, v.Start, v.Size, fr.failKey)
+	}
 	// structural oracle state (C08)
 	removed := map[uint32]string{}
 	var lastRep *fatck.Report
